@@ -11,7 +11,8 @@
 (*   Req(ep, sig, conn, known, ids, dec, ack, bad)                         *)
 (*                               the collector decided a request (logged   *)
 (*                               before the reply is written)              *)
-(*   Flush(ok, clientfails)      blocking_flush returned                   *)
+(*   Flush(ok, clientfails, short) blocking_flush returned (short: called   *)
+(*                               with a timeout far below a scripted outage)*)
 (*                                                                         *)
 (* Variables are what the statement talks about: which events were         *)
 (* emitted, how many acknowledged requests contained each, which request   *)
@@ -134,7 +135,8 @@ Flush ==
            NoPendingRetry == E.ok => \A s \in Sigs : pend[s].st = "none"
            \* bounded liveness: the scripts are finite and the flush timeout is many times the
            \* total back-off, so a failed flush means a failed request was not sent again
-           FlushCompletes == E.ok
+           \* (a flush the harness gave a deliberately short timeout may fail)
+           FlushCompletes == E.ok \/ E.short
        IN verdicts' = verdicts \o Flag(AtLeastOnce, "AtLeastOnce")
                                \o Flag(ExactlyOnceWhenClean, "ExactlyOnceWhenClean")
                                \o Flag(NoPendingRetry, "NoPendingRetry")
